@@ -88,14 +88,14 @@ def _run_job(args):
                     out["errors"].append("vacuity: cover points never reached: %s" % missing)
                 # the engine could not follow the code (unmodelled construct): the contract's native replay still runs on its concrete
                 # inputs -- a failing concrete input is a violation whatever the engine could not decide
-                if ex.unsupported and job.replay is not None:
+                if (ex.unsupported or missing or ex.errors) and job.replay is not None:
                     try:
                         rep = job.replay("(engine undecided)", {})
                     except Exception as e:  # replay harness bug is not a verdict
                         rep = {"confirmed": None, "error": "%s: %s" % (type(e).__name__, e)}
                     if rep and rep.get("confirmed") is True:
                         out["obligations"]["NATIVE/contract-holds-on-the-concrete-replay-inputs"] = {
-                            "status": "failed", "paths": 0, "ms": 0, "model": {}, "note": "engine undecided (%s); native replay of the contract found a failing input" % str(ex.unsupported[0])[:120],
+                            "status": "failed", "paths": 0, "ms": 0, "model": {}, "note": "engine undecided (%s); native replay of the contract found a failing input" % str((list(ex.unsupported) + missing + list(ex.errors) + ["?"])[0])[:120],
                             "replay": rep, "native": True}
                 # replay failed obligations natively
                 for name, o in out["obligations"].items():
